@@ -10,7 +10,8 @@
 (* model of Layout_VersaTiles; every state emits one REPLAY case.          *)
 EXTENDS Container, Layout_VersaTiles, Json
 
-CONSTANTS Universe,     \* sequence of <<z, x, y>>
+CONSTANTS PairMode,     \* "std": the pairs below; "allcodecs": pbf x {none, gzip, brotli} (C12, C04)
+          Universe,     \* sequence of <<z, x, y>>
           FormatsUsed,  \* subset of Formats
           Origin        \* "writer" | "indep"
 
@@ -18,6 +19,7 @@ VARIABLES assign, fmt, par, choice
 vars == <<assign, fmt, par, choice>>
 
 Pairs(f) ==
+    IF PairMode = "allcodecs" THEN {<<"pbf", "none">>, <<"pbf", "gzip">>, <<"pbf", "brotli">>} ELSE
     CASE f = "mbtiles" -> {<<"pbf", "gzip">>, <<"png", "none">>}
       [] f = "pmtiles" -> {<<"pbf", "gzip">>, <<"json", "none">>}
       [] OTHER -> {<<"pbf", "gzip">>, <<"png", "none">>, <<"pbf", "brotli">>}
@@ -48,6 +50,9 @@ TilesOf(a) == \* sequence of <<z,x,y,p>> in universe order for the coordinates t
 UniverseQuick == << <<0, 0, 0>>, <<1, 1, 0>>, <<3, 7, 7>>, <<9, 255, 255>>, <<9, 256, 255>>, <<9, 256, 256>> >>
 UniverseThorough == UniverseQuick \o << <<9, 255, 256>>, <<2, 1, 2>> >>
 AllFormats == Formats
+CrashFormats == {"versatiles", "pmtiles"}
+UniverseCrashQuick == << <<0, 0, 0>>, <<3, 7, 7>>, <<9, 255, 255>>, <<9, 256, 255>> >>
+UniverseCrashThorough == UniverseCrashQuick \o << <<9, 256, 256>>, <<1, 1, 0>> >>
 \* universes for the independent-encoder cases (C16): Hilbert-consecutive coordinates at level 1 (run lengths)
 \* and both sides of the block grid at level 9
 UniverseIndepQuick == << <<1, 0, 0>>, <<1, 0, 1>>, <<9, 255, 255>>, <<9, 256, 255>> >>
